@@ -150,14 +150,14 @@ theorem ring_sc_race_free_all {len k : Nat} (buf : Nat → UInt8) (h2 : 2 ≤ le
 
 /-- message queue (and hence the scheduler's atomic run queue and every fibre event queue, which are message
 queues whose payload is accessed only inside the brackets above): in every reachable state, for any number of
-senders, two claimers never hold the same buffer and a claimer's buffer differs from the one the receiver holds -/
+senders (no bound: the free counter can no longer wrap), two claimers never hold the same buffer and a claimer's buffer differs from the one the receiver holds -/
 theorem mq_sc_race_free (depth msgLen n : Nat) (hd1 : 1 ≤ depth) (hd32 : depth ≤ 32) (hm1 : 1 ≤ msgLen)
-    (hm16 : msgLen < 65536) (hn : n + 32 < 128) (acts : List Librfn.Model.MessageqConc.Act) :
+    (hm16 : msgLen < 65536) (acts : List Librfn.Model.MessageqConc.Act) :
     let s := Librfn.Model.MessageqConc.run (Librfn.Model.MessageqConc.init depth msgLen n) acts
     (∀ i j a b, i ≠ j → Librfn.Model.MessageqConc.holds s (.sender i) = some a →
         Librfn.Model.MessageqConc.holds s (.sender j) = some b → a ≠ b) ∧
     (∀ i a b, Librfn.Model.MessageqConc.holds s (.sender i) = some a →
         Librfn.Model.MessageqConc.holds s .receiver = some b → a ≠ b) :=
-  Librfn.C04.mq_no_adjacent_conflict _ (Librfn.C04.mq_inv_all depth msgLen n hd1 hd32 hm1 hm16 hn acts)
+  Librfn.C04.mq_no_adjacent_conflict _ (Librfn.C04.mq_inv_all depth msgLen n hd1 hd32 hm1 hm16 acts)
 
 end Librfn.C07
